@@ -82,6 +82,12 @@ type Exec struct {
 	curInit               *ssa.Function
 	frames                []*frame
 	prog                  *ssa.Program
+	harnessPkg            *ssa.Package
+	globals               map[*ssa.Global]Obj
+	inited                map[string]bool
+	quoted                map[*Str]bool
+	inQuoteMeta           bool
+	nvars                 int
 	solver                *Solver
 	// current path
 	pc       []*Term
@@ -409,19 +415,17 @@ func (x *Exec) get(fr *frame, v ssa.Value) Value {
 	return r
 }
 
-var globals = map[*ssa.Global]Obj{}
 
-var inited = map[string]bool{}
 var denyInit = map[string]bool{"runtime": true, "os": true, "syscall": true, "sync": true, "reflect": true, "fmt": true, "time": true, "errors": true, "internal/reflectlite": true, "sync/atomic": true, "regexp/syntax": true, "math/rand": true, "os/exec": true, "context": true}
 
 func (x *Exec) global(g *ssa.Global) Obj {
 	if g.Pkg != nil {
 		pp := g.Pkg.Pkg.Path()
-		if !inited[pp] {
-			inited[pp] = true
+		if !x.inited[pp] {
+			x.inited[pp] = true
 			if denyInit[pp] || strings.HasPrefix(pp, "internal/") || strings.HasPrefix(pp, "runtime") {
 				if g.Name() != "init$guard" {
-					fmt.Println("WARNING: reading global of uninitialised package:", g.String())
+					x.res.Inconclusive["note: read a global of an uninitialised (denied) package: "+g.String()] += 0
 				}
 			} else if in := g.Pkg.Func("init"); in != nil {
 				savedPC, savedDec, savedPre := x.pc, x.decision, x.prefix
@@ -430,11 +434,11 @@ func (x *Exec) global(g *ssa.Global) Obj {
 			}
 		}
 	}
-	if o, ok := globals[g]; ok {
+	if o, ok := x.globals[g]; ok {
 		return o
 	}
 	o := newObj(g.Type().(*types.Pointer).Elem())
-	globals[g] = o
+	x.globals[g] = o
 	return o
 }
 
@@ -1451,7 +1455,6 @@ func (s *Str) concrete() (string, bool) {
 }
 
 func (x *Exec) callInit(in *ssa.Function) {
-	fmt.Println("INIT", in.Pkg.Pkg.Path())
 	saved := x.curInit
 	x.curInit = in
 	x.call(in, nil, nil)
